@@ -1058,6 +1058,50 @@ def check_slow_resampling(rep, rng):
             return
 
 
+def check_unusual_orders(rep, rng):
+    """histories that do not alternate: (1) ask() changes nothing -- after some real generations, ask(K) twice in a row returns the rows that
+    one ask(2K) of a deep copy returns (unbounded: no resampling, so the draws are consumed in the same order); (2) reset(x0') in the
+    middle of a generation followed by the tell of the outstanding samples: the step size stays finite and grows by at most the
+    published cap e = exp(1) in one tell"""
+    import copy
+    from ribs.emitters.opt import CMAEvolutionStrategy, LMMAEvolutionStrategy, SeparableCMAEvolutionStrategy
+    for cls, name in ((LMMAEvolutionStrategy, "lm_ma_es"), (CMAEvolutionStrategy, "cma_es"), (SeparableCMAEvolutionStrategy, "sep_cma_es")):
+        dim, K = 6, 4
+        es = cls(sigma0=0.5, solution_dim=dim, batch_size=K, seed=rng.randrange(1 << 30), dtype=np.float64)
+        es.reset(np.full(dim, 0.3))
+        for g in range(3):
+            X = np.array(es.ask())
+            f = -np.sum((X - 1.0) ** 2, axis=1)
+            es.tell(np.argsort(-f), f, max(K // 2, 1))
+        twin = copy.deepcopy(es)
+        a = np.concatenate([np.array(es.ask()), np.array(es.ask())])
+        b = np.array(twin.ask(batch_size=2 * K))
+        rep.count("ask_twice_probes")
+        if a.shape != b.shape or not np.allclose(a, b, rtol=1e-12, atol=1e-12):
+            rep.violation("%s: after three generations, ask() twice in a row does not return the rows one ask(batch_size=2K) of a deep copy returns "
+                          "(max abs difference %s): the second ask() found another distribution than the first" % (
+                              name, float(np.max(np.abs(a - b))) if a.shape == b.shape else "shape %s vs %s" % (a.shape, b.shape)),
+                          {"kind": "property", "broken": "C18 (samples follow the current mean / scale / shape for every ask / tell history)",
+                           "case": {"strategy": name, "dim": dim, "batch": K}}, True, {"kind": "ask-structure"})
+            return
+    for cls, name in ((CMAEvolutionStrategy, "cma_es"), (SeparableCMAEvolutionStrategy, "sep_cma_es")):
+        dim, K = 5, 8
+        shift = rng.choice([3.0, 1000.0])
+        es = cls(sigma0=0.5, solution_dim=dim, batch_size=K, seed=rng.randrange(1 << 30), dtype=np.float64)
+        es.reset(np.zeros(dim))
+        X = np.array(es.ask())
+        es.reset(np.full(dim, shift))
+        f = -np.sum(X ** 2, axis=1)
+        es.tell(np.argsort(-f), f, K // 2)
+        rep.count("reset_mid_generation_probes")
+        if not np.isfinite(es.sigma) or not (0 < es.sigma <= 0.5 * np.e * (1 + 1e-9)):
+            rep.violation("%s: ask(); reset(x0 + %g); tell(the outstanding samples): sigma goes from 0.5 to %r in ONE tell (the published update "
+                          "multiplies by at most e)" % (name, shift, float(es.sigma)),
+                          {"kind": "property", "broken": "C18 (the step size stays positive and finite; sigma update rule)",
+                           "case": {"strategy": name, "dim": dim, "batch": K, "shift": shift}}, True, {"kind": "sigma-update"})
+            return
+
+
 def check_pycma_ranking(rep, rng):
     """pycma wrapper: the update uses the ranking ORDER only -- two identically seeded wrappers told the same ranking once through 1-D
     ranking values and once through 2-D ones (the two-stage rankers' layout) must stay in lock step (bit-identical next ask)"""
@@ -1283,6 +1327,7 @@ def check(rep, tier, seed, driver):
         guarded(lambda: check_pycma_ranking(rep, rng), 60)
         guarded(lambda: check_explicit_batch(rep, rng), 60)
         guarded(lambda: check_slow_resampling(rep, rng), 120)
+        guarded(lambda: check_unusual_orders(rep, rng), 120)
     except _Hang:
         obs_fail.append({"observation": "pycma", "strategy": "pycma", "did_not_terminate_within_s": 60})
     strategies = ["pycma"] if _has_cma() else []
